@@ -288,7 +288,7 @@ def construct_probes():
     out.append(("stmt:pass", pre + "if a:\n    pass\nelse:\n    db.Setting = 1\nfor i in range(2):\n    pass\ndb.Mode = 2\n"))
     out.append(("global:in_loop", HDR + "count = 0\n\ndef tick():\n    global count\n    count += 1\n    if count > 2:\n        count = 0\n\nfor i in range(4):\n    tick()\n    db.Setting = count\n"))
     out.append(("return:in_loop_value", HDR + "def first(lim):\n    i = 0\n    while i < 5:\n        if Stack(d0)[i] > lim:\n            return i\n        i += 1\n    return -1\n\ndb.Setting = first(d1.Setting)\ndb.Mode = first(2)\n"))
-    out.append(("math:const_names", pre + "db.Setting = a * pi + tau\n"))
+    out.append(("math:const_names", pre + "db.Setting = a * pi + tau\ndb.Mode = rgas * a\ndb.On = pi\n"))
     return out
 
 
